@@ -73,11 +73,11 @@ pub fn run(args: &Args, rep: &mut Report) {
         }
         let mut idx = 0u64;
         for k in ks {
-            for variant in 0..3u64 {
+            for variant in 0..9u64 {
                 // the second pass runs on a normal form joined by ';', whose paving grows with every
                 // rule (9 s at 513 rules, 53 s at 1025): quick stops at 257 (129 for the ';' variants),
                 // thorough at 2049 (1025); C07 climbs to 4097 with the cheap variant
-                let top = match (args.thorough(), variant) {
+                let top = match (args.thorough(), variant / 3) {
                     (false, 0) => 257,
                     (false, _) => 129,
                     (true, 0) => 2049,
